@@ -1550,16 +1550,19 @@ static WBXMLError wbxml_fill_header(WBXMLEncoder *encoder, WBXMLBuffer *header)
                                               &public_id_index,
                                               &added))
                 {
+                    /* The element owns pid */
                     wbxml_strtbl_element_destroy(elt);
-                    if (pid) wbxml_buffer_destroy(pid);
                     return WBXML_ERROR_NOT_ENOUGH_MEMORY;
                 }
 
                 /* "added" means that pid was consumed by encoder.
                  * So never free pid if added is TRUE.
                  */
-                if (!added)
+                if (!added) {
+                    /* The element owns pid: do not free it a second time below */
                     wbxml_strtbl_element_destroy(elt);
+                    pid = NULL;
+                }
 
                 strstbl_len = encoder->strstbl_len;
             }
